@@ -17,7 +17,7 @@ func init() {
 		Explanation: "Confinement proof (not a race detector): for every field of every discipline struct (structs that own a `go` statement) all accesses are collected from SSA FieldAddr/Field chains, map updates, element stores, append/copy/delete and calls that mutate a parameter's referent; every instruction gets the set of execution contexts it can run in (constructor with the set of goroutines already spawned, goroutine entry, public API method) from the call graph and a forward dataflow over the constructors; a field passes iff no write is concurrent with any other access (H1/H2). H3: no package-level variable is written outside init. H4: user maps (Opts.Inputs) are read only in constructor context; exported helpers mutate only memory they allocated (dividers: only their distribution parameter).",
 		NotDecided: []string{
 			"races inside user callbacks (Divider, Handle) and inside third-party breaker",
-			"no-copy slice hand-over (ordered by channel operations) is decided under C08",
+			
 		},
 	})
 }
@@ -196,6 +196,23 @@ func runC20(c *Ctx) {
 	r.Doc("H0", "role resolution: discipline structs, goroutine entries, constructors, API methods", 8)
 	for _, p := range []*Prog{c.V1, c.V2} {
 		c20prog(c, p)
+	}
+	// H5: hand-over of slices to the consumer (user-visible data)
+	r.Doc("H5", "(= C08 K1-K4) copy-mode payloads are fresh clones; no-copy buffers are not touched between delivery and release (v1: never again after stop/cancel)", 9)
+	sub := &Ctx{V1: c.V1, V2: c.V2, Tier: c.Tier, R: NewReport("tmp", c.Tier)}
+	for _, jr := range joinDiscs(sub) {
+		checkK1(sub, jr)
+		checkK2(sub, jr)
+		if jr.v1 {
+			checkK3(sub, jr)
+		}
+		checkK4(sub, jr)
+	}
+	for _, o := range sub.R.Obls {
+		if o.Rule == "J0" && o.OK {
+			continue
+		}
+		r.Check(o.OK, "H5", o.Key, o.Site, o.Detail, o.Detail)
 	}
 }
 
